@@ -67,6 +67,10 @@ func TestVerif_C49(t *testing.T) {
 			var stopTook time.Duration
 			tunRefuses := true
 			stopped := false
+			openSockets := 0
+			// every other history: the node under test is configured with two routines; Main then opens two udp sockets
+			// and activate() clamps the readers to the single queue the test device has
+			routines := 1 + hi%2
 			bubblePanic := vBubble(t, func(t *testing.T) {
 				n := vNewNet(t)
 				lh := n.AddNode(cert.Version2, "L", "10.128.0.1/24", m{"lighthouse": m{"am_lighthouse": true, "interval": 1}})
@@ -78,6 +82,28 @@ func TestVerif_C49(t *testing.T) {
 				b.Ctrl.InjectLightHouseAddr(a.Vpn[0].Addr(), a.UDP)
 				tn := n.Nodes[target]
 				started := map[string]bool{}
+				if routines > 1 {
+					// rebuild the node under test with `routines: 2` (same certificate name, addresses and role)
+					over := m{"routines": routines}
+					for k, v := range map[string]m{"L": {"lighthouse": m{"am_lighthouse": true, "interval": 1}}, "A": lhm, "B": lhm}[target] {
+						over[k] = v
+					}
+					tn.Ctrl.Stop()
+					delete(n.byUDP, tn.UDP)
+					tn = n.AddNode(cert.Version2, target, tn.Vpn[0].String(), over)
+					if target == "A" {
+						a = tn
+						a.Ctrl.InjectLightHouseAddr(b.Vpn[0].Addr(), b.UDP)
+					} else if target == "B" {
+						b = tn
+						b.Ctrl.InjectLightHouseAddr(a.Vpn[0].Addr(), a.UDP)
+					}
+					res.Hit("routines:2")
+				}
+				sockets := tn.Ctrl.VerifSockets()
+				if len(sockets) == routines {
+					res.Hit(fmt.Sprintf("sockets:%d", len(sockets)))
+				}
 				startNode := func(nd *vNode) {
 					if err := nd.Ctrl.Start(); err == nil {
 						started[nd.Name] = true
@@ -156,6 +182,20 @@ func TestVerif_C49(t *testing.T) {
 					if _, err := tn.Ctrl.VerifTunWrite(); err == nil {
 						tunRefuses = false
 					}
+					// every socket Main opened is closed now: a reader started on it returns at once (on an open tester socket it
+					// would wait for datagrams for ever; such a socket is closed here to unwind)
+					for _, sk := range sockets {
+						errc := make(chan error, 1)
+						go func() { errc <- sk.ListenOut(func(netip.AddrPort, []byte) {}, func() {}) }()
+						synctest.Wait()
+						select {
+						case <-errc:
+						default:
+							openSockets++
+							_ = sk.Close()
+							synctest.Wait()
+						}
+					}
 					if len(leaks) > 0 {
 						// do not leave the bubble with blocked goroutines (that aborts the process): release what we can
 						tn.Ctrl.VerifForceClose()
@@ -186,6 +226,9 @@ func TestVerif_C49(t *testing.T) {
 			}
 			if stopTook > time.Second {
 				res.Mismatch("stop:slow", fmt.Sprintf("Stop took %v of virtual time after history %v on node %s", stopTook, hist, target), detail)
+			}
+			if openSockets > 0 {
+				res.Mismatch(fmt.Sprintf("socket:open:routines-%d", routines), fmt.Sprintf("%d of the %d udp socket(s) the node opened still accept writes after Stop (history %v, node %s, routines: %d)", openSockets, routines, hist, target, routines), detail)
 			}
 			if !tunRefuses {
 				res.Mismatch("tun:open", fmt.Sprintf("the tun device still accepts writes after Stop (history %v, node %s)", hist, target), detail)
